@@ -76,6 +76,24 @@ func c04Graph(c *c04Case) (*gen.Graph, []string) {
 		return ""
 	}
 	s := g.Add(gen.Start, "start", "")
+	if c.Source == "objtask" {
+		// the data objects the conditions read are written by a task in front of the gateway (DoWithObjects)
+		t0 := g.Add(gen.Task, "T0", "")
+		for i := 0; i < c.K; i++ {
+			t0.Outputs = append(t0.Outputs, fmt.Sprintf("c%d", i))
+		}
+		g.Connect(s, t0, nil)
+		// an embedded sub-process somewhere in the process (its scope gets a data locator of its own), passed by
+		// the one token before it forks
+		sp := g.Add(gen.Sub, "S", "")
+		is := g.Add(gen.Start, "is", "S")
+		it := g.Add(gen.Task, "it", "S")
+		ie := g.Add(gen.End, "ie", "S")
+		g.Connect(is, it, nil)
+		g.Connect(it, ie, nil)
+		g.Connect(t0, sp, nil)
+		s = sp
+	}
 	x := g.Add(gen.Xor, "X", "")
 	if c.Tokens == 1 {
 		g.Connect(s, x, nil)
@@ -106,7 +124,7 @@ func c04Graph(c *c04Case) (*gen.Graph, []string) {
 			x.Default = f.ID
 		} else {
 			kind := "var"
-			if c.Source == "obj" {
+			if c.Source == "obj" || c.Source == "objtask" {
 				kind = "obj"
 			}
 			if c.Errs>>ci&1 == 1 {
@@ -114,7 +132,7 @@ func c04Graph(c *c04Case) (*gen.Graph, []string) {
 			} else {
 				g.Connect(x, b, &gen.Cond{Kind: kind, Var: fmt.Sprintf("c%d", ci), Op: ">", Val: 0, Lang: own(ci)})
 			}
-			if c.Source == "obj" {
+			if c.Source == "obj" || c.Source == "objtask" {
 				g.Objects = append(g.Objects, gen.DataObject{ID: fmt.Sprintf("c%d", ci), Name: fmt.Sprintf("c%d", ci)})
 			}
 			ci++
@@ -130,7 +148,7 @@ func c04Cases(tier string, seed uint64) []fw.Case {
 		for def := -1; def <= k; def++ {
 			for truth := 0; truth < 1<<k; truth++ {
 				for tokens := 1; tokens <= 3; tokens++ {
-					for _, v := range [][2]string{{"expr", "var"}, {"expr", "obj"}, {"xpath", "var"}, {"mixed", "var"}, {"mixedx", "var"}} {
+					for _, v := range [][2]string{{"expr", "var"}, {"expr", "obj"}, {"expr", "objtask"}, {"xpath", "var"}, {"mixed", "var"}, {"mixedx", "var"}} {
 						if k < 2 && (v[0] == "mixed" || v[0] == "mixedx") {
 							continue
 						}
@@ -423,15 +441,18 @@ func c04Run(c *c04Case, env *fw.Env, v *fw.V) {
 	for i := 0; i < c.K; i++ {
 		name := fmt.Sprintf("c%d", i)
 		bit := c.Truth >> i & 1
-		if c.Source == "obj" {
+		if c.Source == "obj" || c.Source == "objtask" {
 			vals[name] = map[string]any{"v": bit}
 		} else {
 			vals[name] = bit
 		}
 	}
-	if c.Source == "obj" {
+	switch c.Source {
+	case "obj":
 		o.DataObjects = vals
-	} else {
+	case "objtask":
+		// written by the task in front of the gateway
+	default:
 		o.Vars = vals
 	}
 	if c.Storm {
@@ -454,6 +475,26 @@ func c04Run(c *c04Case, env *fw.Env, v *fw.V) {
 	if !q.Quiescent {
 		v.Inconclusive("watchdog", "no quiescent point after start: %v", quiesce.Summary(q.Gs))
 		return
+	}
+	if c.Source == "objtask" {
+		p := in.Pending()
+		if len(p) != 1 || p[0].Act != "T0" {
+			v.Inconclusive("setup", "pending %v, expected [T0]", in.PendingActs())
+			return
+		}
+		in.Answer(p[0], bpmn.DoWithObjects(vals))
+		q = in.Quiesce(step.Watchdog)
+		if p = in.Pending(); len(p) != 1 || p[0].Act != "it" {
+			v.Inconclusive("setup", "pending %v, expected [it]", in.PendingActs())
+			return
+		}
+		in.Answer(p[0], bpmn.DoWithResults(nil))
+		q = in.Quiesce(step.Watchdog)
+		v.Add("qpoints", 1)
+		if !q.Quiescent {
+			v.Inconclusive("watchdog", "no quiescent point after T0: %v", quiesce.Summary(q.Gs))
+			return
+		}
 	}
 	exp := c.expected()
 	var want []string
@@ -504,10 +545,15 @@ func c04Run(c *c04Case, env *fw.Env, v *fw.V) {
 		v.Violate("condition-error-trace-missing", cls, "%d error traces, %d condition(s) that cannot be evaluated were evaluated by %d token(s)", n, wantCondErr/c.Tokens, c.Tokens)
 	}
 	// finish the instance
-	for _, r := range in.Pending() {
-		in.Answer(r, bpmn.DoWithResults(nil))
+	for guard := 0; guard < 4; guard++ {
+		for _, r := range in.Pending() {
+			in.Answer(r, bpmn.DoWithResults(nil))
+		}
+		q = in.Quiesce(step.Watchdog)
+		if len(in.Pending()) == 0 {
+			break
+		}
 	}
-	q = in.Quiesce(step.Watchdog)
 	v.Add("qpoints", 1)
 	if q.Quiescent && exp >= 0 && !v.Violated() {
 		if n := in.Count("CeaseFlow", ""); n != 1 {
